@@ -687,12 +687,24 @@ def _sc_array(nr, dt, ba, shape, big_values=False):
     return a
 
 
+def _twelve_fail(ctx, case, detail, site):
+    """failures of SCImage(bits_allocated=12) objects (open finding C19-sc-bits-allocated-12): every such object fails
+    the same way, so the first 40 are reported (and attributed), the rest counted -- they cannot crowd anything else
+    out of the framework's failure list"""
+    ctx._c19_twelve = getattr(ctx, '_c19_twelve', 0) + 1
+    if ctx._c19_twelve > 40:
+        ctx.hist('sc_bits_allocated_12', site)
+        return
+    ctx.fail(case, detail, site=site)
+
+
 def _check_sc(ctx, label, dt, ba, shape, pi, ts, cs, idx, layout='c', big_values=False, reqs=None, pending=None):
     import highdicom as hd
     import pydicom
     from highdicom.sc import SCImage
     from pydicom.pixels import pixel_array as pyd_pixel_array
     a = _layout(_sc_array(ctx.np_rng('scpix', idx), dt, ba, shape, big_values), layout)
+    built = None
     kw = {}
     if cs == 'PATIENT':
         kw['patient_orientation'] = ('L', 'P')
@@ -734,8 +746,9 @@ def _check_sc(ctx, label, dt, ba, shape, pi, ts, cs, idx, layout='c', big_values
         if st == 'ok':
             raw = bytes(sc.PixelData)
             n_exp = (a.size + 7) // 8 if ba == 1 else a.size * a.dtype.itemsize
-            pending.append((case, 'sc-build', ('ok', list(raw[:n_exp + (n_exp % 2)]) if ba == 1 else list(raw[:n_exp]),
-                                               np.asarray(a).astype(np.int64).reshape(-1).tolist())))
+            built = ['ok', list(raw[:n_exp + (n_exp % 2)]) if ba == 1 else list(raw[:n_exp]),
+                     np.asarray(a).astype(np.int64).reshape(-1).tolist()]
+            pending.append((case, 'sc-build', built))
         else:
             pending.append((case, 'sc-build', ('err', None, None)))
     if st != 'ok':
@@ -747,9 +760,12 @@ def _check_sc(ctx, label, dt, ba, shape, pi, ts, cs, idx, layout='c', big_values
         else:
             ctx.hist('sc_refusal', sc.split(':')[0])
         return
-    if not valid or not fits:
+    if not valid:
         ctx.fail(case, 'an array the secondary capture cannot represent was accepted', site='sc-refusal')
         return
+    twelve = ba == 12 and dt == 'uint16'
+    if not fits:
+        _twelve_fail(ctx, case, 'a uint16 array with a value >= 4096 was accepted as 12-bit data', 'sc-12bit-overflow')
     if ts == JPG:
         ctx.hist('sc_lossy', 'jpeg baseline accepted (lossy: not compared)')
         return
@@ -762,20 +778,32 @@ def _check_sc(ctx, label, dt, ba, shape, pi, ts, cs, idx, layout='c', big_values
     for name, f in (('pydicom-raw', lambda: pyd_pixel_array(ds, raw=True)),) + \
             ((('pydicom', lambda: ds.pixel_array),) if pi not in ('YBR_FULL', 'YBR_FULL_422') else ()):
         s1, got = _try(f)
+        if name == 'pydicom-raw' and built is not None:
+            # what the model's decode is compared with: the values pydicom returns, or its refusal
+            built[2] = np.asarray(got).astype(np.int64).reshape(-1).tolist() if s1 == 'ok' else 'err'
         ok = s1 == 'ok' and np.asarray(got).shape == want.shape and bool(np.array_equal(np.asarray(got).astype(np.int64), want.astype(np.int64)))
         ctx.case(kind='sc', path=name, outcome='ok' if ok else 'FAIL')
         if not ok:
-            ctx.fail(dict(case, path=name), got if s1 != 'ok' else {'what': 'pydicom decodes the secondary capture to a different array',
-                                                                     'BitsAllocated': int(ds.BitsAllocated), 'BitsStored': int(ds.BitsStored),
-                                                                     'got': np.asarray(got).reshape(-1)[:12].tolist(),
-                                                                     'want': want.reshape(-1)[:12].astype(np.int64).tolist()}, site='sc-decode')
-    # attributes of the image pixel module that a reader relies on (L1)
+            detail = got if s1 != 'ok' else {'what': 'pydicom decodes the secondary capture to a different array',
+                                             'BitsAllocated': int(ds.BitsAllocated), 'BitsStored': int(ds.BitsStored),
+                                             'got': np.asarray(got).reshape(-1)[:12].tolist(),
+                                             'want': want.reshape(-1)[:12].astype(np.int64).tolist()}
+            if twelve and isinstance(detail, str) and "'Bits Allocated' value of '12' is invalid" in detail:
+                _twelve_fail(ctx, dict(case, path=name), detail, 'sc-decode')
+            else:
+                ctx.fail(dict(case, path=name), detail, site='sc-decode')
+    # attributes of the image pixel module that a reader relies on (L1): PS3.5 8.1.1 -- Bits Allocated is 1 or a
+    # multiple of 8; 12-bit data are 12 bits stored in 16 allocated
     exp_ba, exp_bs = (16, 12) if ba == 12 else (ba, ba)
-    okm = (int(ds.BitsAllocated), int(ds.BitsStored), int(ds.HighBit), int(ds.PixelRepresentation), int(ds.SamplesPerPixel),
-           str(ds.PhotometricInterpretation), (int(ds.Rows), int(ds.Columns))) == \
-        (exp_ba, exp_bs, exp_bs - 1, 0, 3 if a.ndim == 3 else 1, pi, (a.shape[0], a.shape[1]))
+    seen = (int(ds.BitsAllocated), int(ds.BitsStored), int(ds.HighBit), int(ds.PixelRepresentation), int(ds.SamplesPerPixel),
+            str(ds.PhotometricInterpretation), (int(ds.Rows), int(ds.Columns)))
+    okm = seen == (exp_ba, exp_bs, exp_bs - 1, 0, 3 if a.ndim == 3 else 1, pi, (a.shape[0], a.shape[1]))
     if not okm:
-        ctx.fail(case, 'image pixel module attributes do not describe the array', site='sc-module')
+        if twelve and seen == (12, 12, 11, 0, 1, pi, (a.shape[0], a.shape[1])):
+            _twelve_fail(ctx, case, 'Bits Allocated 12 written (PS3.5 8.1.1: 1 or a multiple of 8); 12-bit data are 12 bits stored in 16 allocated',
+                         'sc-module')
+        else:
+            ctx.fail(case, f'image pixel module attributes do not describe the array: {seen}', site='sc-module')
     if cs == 'SLIDE' and 'issuer_of_container_identifier' in kw and len(ds.IssuerOfTheContainerIdentifierSequence) != 1:
         ctx.fail(case, 'issuer of the container identifier not stored', site='sc-module')
 
@@ -895,7 +923,7 @@ def _compare_sc_build(ctx, case, impl, ans):
         o = ans['ok']
         if o['bytes'] != raw:
             ctx.disagree('L1', case, raw[:32], o['bytes'][:32], 'secondary capture: pixel data bytes')
-        elif o['decoded'].get('ok') != data and case.get('pi') != 'YBR_FULL':
+        elif (('err' not in o['decoded']) if data == 'err' else (o['decoded'].get('ok') != data)):
             ctx.disagree('L0', case, data[:32], o['decoded'], 'secondary capture: decoded values')
 
 
@@ -984,7 +1012,8 @@ def replay(ctx, case):
 
 def attribute(failure, open_findings):
     """C19-float-frames-unreadable: frames of float parametric maps cannot be read through the Image interface
-    (get_stored_frame(s), lazy pixel_array, get_frame, get_volume): AttributeError on PixelData / PixelRepresentation."""
+    (get_stored_frame(s), lazy pixel_array, get_frame, get_volume): AttributeError on PixelData / PixelRepresentation.
+    C19-sc-bits-allocated-12: SCImage(bits_allocated=12) writes Bits Allocated 12, which pydicom does not decode."""
     ids = {f['id'] for f in open_findings}
     c = failure.get('case') or {}
     d = failure.get('detail')
@@ -993,4 +1022,14 @@ def attribute(failure, open_findings):
             and (site.startswith('eager/') or site.startswith('lazy/')) and site not in ('eager/pixel_array', 'eager/open', 'lazy/open') \
             and isinstance(d, str) and d.startswith('AttributeError') and ('PixelData' in d or 'PixelRepresentation' in d):
         return 'C19-float-frames-unreadable'
+    # C19-sc-bits-allocated-12: only SCImage(uint16 array, bits_allocated=12) in a native syntax, and only its three faces:
+    # the object says Bits Allocated 12, pydicom refuses exactly that value, values >= 4096 are not checked
+    if 'C19-sc-bits-allocated-12' in ids and c.get('kind') == 'sc' and c.get('ba') == 12 and c.get('dtype') == 'uint16' \
+            and c.get('ts') in NATIVE and len(c.get('shape') or ()) == 2 and isinstance(d, str):
+        if site == 'sc-decode' and "'Bits Allocated' value of '12' is invalid" in d:
+            return 'C19-sc-bits-allocated-12'
+        if site == 'sc-module' and d.startswith('Bits Allocated 12 written'):
+            return 'C19-sc-bits-allocated-12'
+        if site == 'sc-12bit-overflow' and c.get('big_values'):
+            return 'C19-sc-bits-allocated-12'
     return None
